@@ -471,6 +471,25 @@ WiringPortRef wire_node(Scope &sc, const JV &st, std::vector<WiringPortRef> ins)
                 (void)out.begin_mutation(t).copy_value_from(Value{Int{x}}.view()); extra("out"); e += std::to_string(x);
             } else if (cfg->out_schema == types().ts_bool) {
                 (void)out.begin_mutation(t).copy_value_from(Value{Bool{(x & 1) != 0}}.view()); extra("out"); e += (x & 1) ? "true" : "false";
+            } else if (cfg->mode == "dsum" && cfg->out_schema->kind == TSTypeKind::TSD) {
+                // key-wise sum of the valid entries of all (dictionary) inputs, written as the node's whole result: a
+                // collection-valued associative-commutative combiner for keyed reductions
+                std::map<std::int64_t, std::int64_t> sums;
+                auto in = v.input(t); auto b = in.as_bundle();
+                for (std::size_t i = 0; i < cfg->n_in; ++i) {
+                    auto c = b[i];
+                    if (!c.valid()) continue;
+                    auto cd = c.as_dict();
+                    for (const auto &[k, ch] : cd.items()) if (ch.valid()) sums[k.template checked_as<Int>()] += ch.value().template checked_as<Int>();
+                }
+                auto d = out.as_dict();
+                std::vector<std::int64_t> stale;
+                for (auto k : d.keys()) { const std::int64_t kk = k.template checked_as<Int>(); if (!sums.count(kk)) stale.push_back(kk); }
+                auto m = d.begin_mutation(t);
+                for (auto kk : stale) (void)m.erase(Value{Int{kk}}.view());
+                for (auto &kv : sums) m.set(Value{Int{kv.first}}.view(), Value{Int{kv.second}}.view());
+                if (sums.empty() && stale.empty()) m.touch();
+                extra("out"); e += std::to_string(sums.size());
             } else throw std::runtime_error("harness: node out schema unsupported without mirror");
         }
         e += "}]";
